@@ -6,3 +6,7 @@ import CompmechVerif.Props.C11
 #print axioms Compmech.Panel.C11.strain_nl_partial
 #print axioms Compmech.Panel.C11.strain_nl_counterexample
 #print axioms Compmech.Panel.C11.chunking_invariant
+#print axioms Compmech.Panel.C11.stress_eq_F_strain
+#print axioms Compmech.Panel.C11.stress_nlterms_forwarded
+#print axioms Compmech.Panel.C11.stress_requires_laminate
+#print axioms Compmech.Panel.C11.stress_linear_eq_F_donnell
